@@ -178,7 +178,8 @@ class Ctx:
             self.solver.add(cond)  # feasibility pruning uses the quantifier-free part only (sound: prunes less)
 
     def feasible(self, cond=None):
-        r = self.solver.check(*([cond] if cond is not None else []))
+        from .smt import guarded_check
+        r = guarded_check(self.solver, 5000, *([cond] if cond is not None else []))
         return r != z3.unsat
 
     def choose(self, n, feas: Callable[[int], bool]):
